@@ -160,38 +160,17 @@ def targets_identified(jobs):
 
 @contract('commander:ApplicationStartJobs.get_load_requests', props=['C04', 'C14'])
 class GetLoadRequests:
-    """C04: 'plus the starts already requested there', C14: 'loads include starts already requested'; docstring: 'Extract by
-    Supvisors instance the processes that are planned to start but still stopped and sum their expected load'."""
+    """Call-site facet (VERIFIED; the accounting clauses - domain, lower bounds - are proved on the same code in
+    contracts/c04_loadreq.py, kept apart so that the callers' proofs only carry what they use): the result is a fresh map
+    whose keys are targets of commands of this job, hence - under the callers' rely - identified instances, which is what
+    get_supvisors_instance / get_node_load_request_map require of a request map."""
     raises = ()
     types = {'load_request_map': 'Dict[str, List[int]]'}
 
     def modifies(self):
         return []
 
-    def pre_loads_not_negative(self):
-        return loads_not_negative(self)
-
-    def post_domain_current(self, result):
-        return forall(self.current_jobs, lambda c: implies(pending(c), c.identifier in result))
-
-    def post_domain_planned(self, result):
-        return forall(self.planned_jobs, lambda s: forall(self.planned_jobs[s], lambda c: implies(pending(c), c.identifier in result)))
-
-    def post_domain_only(self, result):
-        return forall(result, lambda i: (
-            exists(self.current_jobs, lambda c: pending_on(c, i))
-            or exists(self.planned_jobs, lambda s: exists(self.planned_jobs[s], lambda c: pending_on(c, i)))))
-
-    def post_at_least_each_current(self, result):
-        return forall(self.current_jobs, lambda c: implies(pending(c), result[c.identifier] >= c.process.rules.expected_load))
-
-    def post_at_least_each_planned(self, result):
-        return forall(self.planned_jobs, lambda s: forall(self.planned_jobs[s], lambda c: implies(
-            pending(c), result[c.identifier] >= c.process.rules.expected_load)))
-
     def post_keys_identified(self, result):
-        """every key is the target of a command of this job (post_domain_only); under the rely of the callers the
-        targets are identified instances (needed by get_supvisors_instance / get_node_load_request_map)"""
         return implies(targets_identified(self), forall(result, lambda i: mapper_knows(self.supvisors, i)))
 
     def post_fresh(self, result):
@@ -199,12 +178,9 @@ class GetLoadRequests:
 
     def loop0_inv(self, k, seq, load_request_map):
         return (was_fresh(load_request_map)
-                and forall(load_request_map, lambda i: was_fresh(load_request_map[i]) and is_alloc(load_request_map[i]) and load_request_map[i] is not seq)
-                and forall(str, lambda i: (i in load_request_map) == exists(int, lambda j: 0 <= j and j < k and pending_on(seq[j], i)))
-                and forall(load_request_map, load_request_map, lambda a, b: implies(a != b, load_request_map[a] is not load_request_map[b]))
-                and forall(load_request_map, lambda i: forall(load_request_map[i], lambda x: x >= 0))
-                and forall(int, lambda j: implies(0 <= j and j < k and pending(seq[j]),
-                                                  seq[j].process.rules.expected_load in load_request_map[seq[j].identifier])))
+                and forall(load_request_map, lambda i: was_fresh(load_request_map[i]) and is_alloc(load_request_map[i])
+                           and load_request_map[i] is not seq)
+                and forall(load_request_map, lambda i: exists(int, lambda j: 0 <= j and j < k and pending_on(seq[j], i))))
 
     def loop0_modifies(self, load_request_map, seq):
         return [contents(load_request_map), contents_where(lambda r: was_fresh(r) and r is not seq, 'list')]
@@ -243,12 +219,11 @@ class ProcessJob:
         exactly once (it is popped from planned_jobs first)"""
         return implies(self.distribution == DistributionRules.ALL_INSTANCES, command.identifier is None)
 
-    def pre_pending_loads(self, command):
-        """preconditions of get_load_requests (now verified): shape of the loads, and the rely that was part of its assumed
-        contract before - the targets of the commands of this job are identified instances (only read when the
-        placement is done here, i.e. for ALL_INSTANCES applications)"""
-        return implies(self.distribution == DistributionRules.ALL_INSTANCES,
-                       loads_not_negative(self) and targets_identified(self))
+    def pre_targets_identified(self, command):
+        """the rely that was part of the assumed contract of get_load_requests before it was verified: the targets of the
+        commands of this job are identified instances (only read when the placement is done here, i.e. for ALL_INSTANCES
+        applications)"""
+        return implies(self.distribution == DistributionRules.ALL_INSTANCES, targets_identified(self))
 
     def post_only_stopped_processes(self, command, result, old):
         """'a process that is already running ... is not requested again'"""
